@@ -2,8 +2,10 @@
 import ast
 
 
-def desc_src(d):
+def desc_src(d, spell=None):
     t = d["t"]
+    if t == "tuple" and spell == "Tuple":   # arg node field spell = "Tuple": no Qlist / Qmatrix shorthand
+        return "Tuple[" + ", ".join(desc_src(e, spell) for e in d["elts"]) + "]"
     if t == "bool":
         return "bool"
     if t == "int":
@@ -23,8 +25,8 @@ def desc_src(d):
     raise ValueError(d)
 
 
-def _ann(d, param=False):
-    s = desc_src(d)
+def _ann(d, param=False, spell=None):
+    s = desc_src(d, spell)
     if param:
         s = f"Parameter[{s}]"
     return ast.parse(s, mode="eval").body
@@ -45,7 +47,7 @@ def to_ast(j):
             return ast.Constant(value=p["num"] / p["den"])
         raise ValueError(p)
     if T == "arg":
-        return ast.arg(arg=j["arg"], annotation=_ann(j["tdesc"], j.get("param", False)))
+        return ast.arg(arg=j["arg"], annotation=_ann(j["tdesc"], j.get("param", False), j.get("spell")))
     if T == "FunctionDef":
         return ast.FunctionDef(name=j["name"], args=to_ast(j["args"]), body=to_ast(j["body"]), decorator_list=[],
                                returns=_ann(j["rdesc"]), type_params=[])
